@@ -326,11 +326,24 @@ def _return_abstractarray():
     return AbstractArray
 
 
+def _unpickle_array_annotation(dtype, array_type, dim_str, dtypes):
+    out = dtype[array_type, dim_str]
+    if dtypes is not None:
+        # Annotations built by nesting, e.g. `Shaped[Float[Array, "a"], "b"]`, accept
+        # the intersection of the dtypes, which `dtype` alone does not record.
+        out.dtypes = dtypes
+    return out
+
+
 def _pickle_array_annotation(x: type["AbstractArray"]):
     if x is AbstractArray:
         return _return_abstractarray, ()
     else:
-        return x.dtype.__getitem__, ((x.array_type, x.dim_str),)
+        if x.dtypes is _any_dtype or x.dtypes == x.dtype.dtypes:
+            dtypes = None
+        else:
+            dtypes = x.dtypes
+        return _unpickle_array_annotation, (x.dtype, x.array_type, x.dim_str, dtypes)
 
 
 copyreg.pickle(_MetaAbstractArray, _pickle_array_annotation)
